@@ -407,12 +407,12 @@ func (nr *netRun) checkC11(x *xfer) {
 			continue
 		}
 		n, c := op.Node, op.Call
-		// a pause/resume that races with the same application's close of the channel (the close cancels the transport
-		// request under it): whichever wins, the channel is being torn down - not judged
+		// a pause/resume that races with, or follows, the same application's close of the channel (the close cancels the
+		// transport request under it): the channel is being torn down - not judged
 		racingClose := false
 		for _, o2 := range nr.ops {
-			if o2.X == x && o2.Node == n && (o2.Kind == "Close" || o2.Kind == "CloseWithError") && o2.Call.S0 <= c.S1 && (!o2.Call.Returned || o2.Call.S1 >= c.S0) {
-				racingClose = true
+			if o2.X == x && o2.Node == n && (o2.Kind == "Close" || o2.Kind == "CloseWithError") && o2.Call.S0 <= c.S1 {
+				racingClose = true // closing, or closed before: a pause or resume of such a channel is meaningless and merely ignored
 			}
 		}
 		if racingClose {
@@ -972,6 +972,13 @@ func (nr *netRun) checkC08(x *xfer) {
 						if vc.ChID == x.chid && vc.Kind == "restart" && vc.Life == life && vc.Step < pausedAt {
 							for _, tc := range b.TpCalls {
 								if tc.Kind == "open" && tc.Restart && tc.ChID == x.chid && tc.Life == life && tc.Step > vc.Step && tc.Step < e.Step {
+									cause = "|restart-validated-before-the-limit-was-reached-and-carried-out-after"
+								}
+							}
+							// (a pull's restart arrives as a new graphsync request: the responder opens nothing itself; the restart
+							// is carried out when its Restart event is applied - here after the limit pause)
+							for _, e2 := range evs {
+								if e2.Code == datatransfer.Restart && e2.Step >= pausedLB && e2.Step > vc.Step && e2.Step < e.Step {
 									cause = "|restart-validated-before-the-limit-was-reached-and-carried-out-after"
 								}
 							}
